@@ -224,6 +224,11 @@ pub struct PortState {
     /// faults for the port's flush(): the k-th flush call returns this error kind
     pub flush_faults: Vec<(usize, io::ErrorKind)>,
     pub flush_calls: usize,
+    /// every write call blocks this long inside the port before it succeeds (a slow or flow-controlled line)
+    pub write_stall: Option<Duration>,
+    /// the first read call blocks this long before it delivers (the sign takes its time to answer)
+    pub first_read_stall: Option<Duration>,
+    pub read_calls: usize,
 }
 
 impl PortState {
@@ -265,6 +270,9 @@ pub fn shared(settings: PortSettings) -> Shared {
         fault_budget: usize::MAX,
         flush_faults: vec![],
         flush_calls: 0,
+        write_stall: None,
+        first_read_stall: None,
+        read_calls: 0,
     }))
 }
 
@@ -353,6 +361,14 @@ impl InstrPort {
 impl Read for InstrPort {
     fn read(&mut self, buf: &mut [u8]) -> io::Result<usize> {
         let t0 = Instant::now();
+        let stall = {
+            let mut st = self.st.borrow_mut();
+            st.read_calls += 1;
+            if st.read_calls == 1 { st.first_read_stall } else { None }
+        };
+        if let Some(d) = stall {
+            std::thread::sleep(d);
+        }
         let r: Result<usize, io::ErrorKind> = match &mut self.wiring {
             Wiring::Scripted { reader, .. } => reader.read(buf).map_err(|e| e.kind()),
             Wiring::Link { rx, .. } => {
@@ -377,6 +393,10 @@ impl Read for InstrPort {
 impl Write for InstrPort {
     fn write(&mut self, buf: &[u8]) -> io::Result<usize> {
         let t0 = Instant::now();
+        let stall = self.st.borrow().write_stall;
+        if let Some(d) = stall {
+            std::thread::sleep(d);
+        }
         let mut line_done = false;
         let r: Result<usize, io::ErrorKind> = match &mut self.wiring {
             Wiring::Scripted { writer, .. } => writer.write(buf).map_err(|e| e.kind()),
